@@ -22,7 +22,7 @@ E == T[l]
 
 TInit == /\ tid \in 1..NTraces /\ l = 1
          /\ LET c == Traces[tid][1].cfg IN
-            /\ cfg = c /\ bar = NewBar(TMax(0, c.max0), c.maxgap) /\ sec = [content |-> <<>>, lines |-> 0]
+            /\ cfg = c /\ bar = NewBar(TMax(0, c.max0), TMax(c.mingap, c.maxgap)) /\ sec = [content |-> <<>>, lines |-> 0]
             /\ term = TermNew(c.w)
             /\ shown = NoFrame /\ sinceAdv = -1 /\ plog = <<>>
             /\ last = [op |-> "none", arg |-> 0, dt |-> 0, gap |-> -1, frames |-> <<>>, ops |-> <<>>, exc |-> "",
